@@ -199,7 +199,7 @@ class ScriptedBackend(TrialBackend):
         m = dict(self.todo[t].pop(0))
         m[ST_WORKER_TIMESTAMP] = self.ts
         m[ST_WORKER_ITER] = self.emitted_in_run[t]
-        m[ST_WORKER_TIME] = float(self.ts)
+        m[ST_WORKER_TIME] = float(self.emitted_in_run[t] + 1)   # seconds since this job started (a resumed job starts at 0 again)
         self.ts += 1
         self.metrics[t].append(m)
         self.truth[t].append((self.run_idx[t], self.emitted_in_run[t], late))
